@@ -83,10 +83,34 @@ def d8_equivalent_selector_spellings(w):
     return False
 
 
+def _synthetic_pods(wl):
+    if wl['expr'] == 'bare':
+        return [wl['name']]
+    if wl['expr'] == 'pods':
+        return ['%s-%cxq' % (wl['name'], chr(ord('p') + i)) for i in range(wl['podCount'])]
+    n = 2 if (wl['kind'] not in ('DaemonSet', 'CronJob') and wl['replicas'] > 1) else 1
+    return ['%s-%d' % (wl['name'], i) for i in range(1, n + 1)]
+
+
+def d11_synthetic_pod_name_collision(w):
+    """Two different workloads of one namespace map to the same (synthetic) pod name: the engine keys pods by
+    namespace/name, so one workload shadows the other."""
+    seen = {}
+    for i, wl in enumerate(w['workloads']):
+        for p in _synthetic_pods(wl):
+            k = (wl['ns'], p)
+            if k in seen and seen[k] != i:
+                return True
+            seen[k] = i
+    return False
+
+
 def classify(prop, m, wev, tev):
     w = wev.get('world') if isinstance(wev, dict) else None
     if prop == 'C10' and w is not None and d10b(m, w):
         return 'D10b-ingress-number-matches-targetport'
+    if prop in ('C17', 'C01', 'C05') and w is not None and d11_synthetic_pod_name_collision(w):
+        return 'D11-synthetic-pod-name-collision'
     if prop == 'C08' and w is not None and m and m[0] == 'C08-output-varies' and m[1].endswith('/true') and d8_equivalent_selector_spellings(w):
         return 'D8-exposure-equivalent-selectors-first-wins'
     return None
